@@ -304,6 +304,12 @@ func InitializeRunningEventFilter(database db.KeyValueStore) (*RunningEventFilte
 		return nil, fmt.Errorf("getting stored running event filter: %w", err)
 	}
 	if err == nil {
+		// The snapshot describes the chain at the last graceful stop only. Consume
+		// it: if blocks below its next block are replaced and the process then
+		// dies without rewriting it, a later start must not resume from it.
+		if err := DeleteRunningEventFilter(database); err != nil {
+			return nil, fmt.Errorf("consuming stored running event filter: %w", err)
+		}
 		next, err := stored.NextBlock()
 		if err != nil {
 			return nil, fmt.Errorf("reading stored next block: %w", err)
